@@ -57,7 +57,7 @@ CHECKS = {
         design_ref="DESIGN.md §5 C10", note=_KM_NOTE + " Allocation failure (AllocError) is outside the claim.",
         technique="SAT-based bounded model checking (Kani/CBMC) over unconstrained 64-bit sizes"),
     "C12": dict(
-        text="Occupied/vacant handle methods (through the guarded hooks that build the handles as entry() does — the Entry enum itself is intractable for CBMC) and the whole raw-entry API, from arbitrary INV states with symbolic keys: handle designates the element wherever stored, writes through returned references are seen by later lookups, inserting calls that start a resize return a handle to the new element, replace_entry_with(None) then insert leaves the key exactly once.",
+        text="Occupied/vacant handle methods (through the guarded hooks that build the handles as entry() does — the Entry enum itself is intractable for CBMC) and the whole raw-entry API, from arbitrary INV states with symbolic keys: handle designates the element wherever stored, writes through returned references are seen by later lookups, inserting calls that start a resize return a handle to the new element, replace_entry_with(None) then insert leaves the key exactly once; all six builder lookups (raw_entry_mut / raw_entry x from_key / from_key_hashed_nocheck / from_hash) report Occupied / Some exactly when the key is present, including the layout whose main table is empty while leftovers remain.",
         design_ref="DESIGN.md §5 C12", note=_KM_NOTE + " Entry::or_insert*/or_default/insert dispatch (3-line matches) is not executed; entry()'s Occupied/Vacant decision is.",
         technique="SAT-based bounded model checking (Kani/CBMC) of per-method harnesses"),
     "C06": dict(
